@@ -6,7 +6,8 @@ CONSTANTS
   Seeded <- MC_Seeded
   TSet <- MC_TSet
   MaxCalls <- MC_MaxCalls
-  Worlds <- MC_Worlds
+  WorldPairs <- MC_WorldPairs
+  SetupChoices <- MC_SetupChoices
   Problems <- MC_Problems
   Region <- MC_Region
   ValidateRoots <- MC_ValidateRoots
